@@ -845,3 +845,82 @@ Proof.
   split; [apply c05_dir_deferred_covered_b_sound; vm_compute; reflexivity|].
   vm_compute. repeat split; reflexivity.
 Qed.
+
+(* ---- the whole program (Whole/Main.v [tempren_main]; proofs: Whole/PipelineProps.v) ---- *)
+From Coq Require Import Permutation.
+From Tempren Require Import Pipe.FrontCompile Whole.Library Whole.Render Whole.Gather Whole.Main Whole.Facts Whole.PipelineProps
+  Whole.Examples.
+
+(* Name mode, no injected fault.  For EVERY template text (compiling or not, whatever it renders: invalid names, raising
+   tags, the same name for every file), registry, -r, -ih, sort, listing order, input paths, strategy stop / ignore /
+   manual without an answer that reads as "override" or "custom path", and EVERY tree with ordinary names and WITHOUT
+   symbolic links: tempren --dry-run and tempren end with the same exit status, print the same report lines and prompt
+   the same number of times.  [set_dry o b] is o with --dry-run := b.  The hypotheses [plain_plan] / [dest_not_link] of
+   the run-level theorem are DERIVED here for what the program gathers itself. *)
+Theorem C05_whole_dry_equals_real : forall upper lower R o text dirs s,
+  tree_ok s -> no_links s ->
+  o_mode o = MName -> o_fault o = None -> no_override_no_custom o -> (forall l, Permutation l (o_listing o l)) ->
+  let d := tempren_main upper lower R (set_dry o true) text dirs s in
+  let r := tempren_main upper lower R (set_dry o false) text dirs s in
+  r_status d = r_status r /\ r_report d = r_report r /\ r_prompts d = r_prompts r.
+Proof. exact whole_dry_equals_real. Qed.
+Print Assumptions C05_whole_dry_equals_real.
+
+(* gathering, ordering and rendering do not look at --dry-run: both runs rename by the same plan *)
+Theorem C05_whole_same_plan : forall upper lower b o dirs s x,
+  whole_plan upper lower b (set_dry o x) dirs s = whole_plan upper lower b o dirs s.
+Proof. exact whole_plan_dry_irrelevant. Qed.
+Print Assumptions C05_whole_same_plan.
+
+Theorem C05_whole_hypotheses_spelled_out : forall o s,
+  (no_links s <-> forall k i t, ~ In (k, NLink i t) s) /\
+  (no_links_b s = true -> no_links s) /\
+  (tree_ok_b s = true -> tree_ok s) /\
+  (no_override_no_custom o <->
+   match o_strategy o with
+   | Stop | Ignore => True
+   | Manual => Forall (fun a => parse_answer a <> AOverride /\ parse_answer a <> ACustom) (o_answers o)
+   | Override => False
+   end) /\
+  o_dry (set_dry o true) = true /\ o_dry (set_dry o false) = false.
+Proof. exact dry_equals_real_hypotheses_spec. Qed.
+Print Assumptions C05_whole_hypotheses_spelled_out.
+
+(* the example tree has no symbolic link; "x" (a conflict, status 1, two lines), the counting template (status 0,
+   four lines), a text that does not compile and %Base()|%Trim(2,right)|%Pad(5,'x',right)|%Upper() print the
+   same in the dry and in the real run, and the real run does rename *)
+Example C05_whole_example :
+  tree_ok_b ex_tree = true /\ no_links_b ex_tree = true /\
+  (forall t, In t [t_x; t_upper_count; t_unknown_tag; t_trim_pad] ->
+     let d := ex_main (set_dry (ex_options MName true true) true) t ex_dirs ex_tree in
+     let r := ex_main (set_dry (ex_options MName true true) false) t ex_dirs ex_tree in
+     r_status d = r_status r /\ r_report d = r_report r /\ r_prompts d = r_prompts r /\ r_calls d = []) /\
+  r_status (ex_main (set_dry (ex_options MName true true) true) t_x ex_dirs ex_tree) = 1%Z /\
+  length (r_report (ex_main (set_dry (ex_options MName true true) true) t_x ex_dirs ex_tree)) = 2%nat /\
+  r_status (ex_main (set_dry (ex_options MName true true) true) t_upper_count ex_dirs ex_tree) = 0%Z /\
+  length (r_report (ex_main (set_dry (ex_options MName true true) true) t_upper_count ex_dirs ex_tree)) = 4%nat /\
+  length (r_calls (ex_main (set_dry (ex_options MName true true) false) t_upper_count ex_dirs ex_tree)) = 4%nat /\
+  r_report (ex_main (set_dry (ex_options MName true true) true) t_trim_pad ex_dirs ex_tree) =
+    [([97; 46; 116], [65; 88; 88; 88; 88], false); ([98; 46; 116], [66; 88; 88; 88; 88], false);
+     ([115; 47; 99], [115; 47; 67; 88; 88; 88; 88], false);
+     ([115; 47; 100; 46; 116], [115; 47; 68; 88; 88; 88; 88], false)].
+Proof.
+  split; [vm_compute; reflexivity|]. split; [vm_compute; reflexivity|]. split.
+  - intros t H. cbn [In] in H.
+    repeat (destruct H as [H|H]; [subst t; vm_compute; repeat split; reflexivity|]). destruct H.
+  - vm_compute. repeat split; reflexivity.
+Qed.
+
+Example C05_whole_example_by_theorem :
+  let d := ex_main (set_dry (ex_options MName true true) true) t_x ex_dirs ex_tree in
+  let r := ex_main (set_dry (ex_options MName true true) false) t_x ex_dirs ex_tree in
+  r_status d = r_status r /\ r_report d = r_report r /\ r_prompts d = r_prompts r.
+Proof.
+  apply (C05_whole_dry_equals_real ascii_upper_str ascii_lower_str core_reg (ex_options MName true true) t_x ex_dirs ex_tree).
+  - apply tree_ok_b_sound. vm_compute. reflexivity.
+  - apply no_links_b_sound. vm_compute. reflexivity.
+  - reflexivity.
+  - reflexivity.
+  - exact I.
+  - exact permutes_id.
+Qed.
